@@ -774,6 +774,10 @@ def generate(prop, run_seed, tier='quick', tolerate=frozenset()):
         # leaves something behind in the processor's wait structure) next
         # to untouched waiters with scattered deadlines
         nch, nw = crng.randint(4, 6), crng.randint(4, 7)
+        mega = prop == 'C09' and crng.random() < .15
+        if mega:
+            nch = crng.randint(36, 44)  # a crowd of long sleepers, all of
+                                        # them re-armed in every frame
         coros = [{'yields': [crng.randint(8, 90) for _ in range(30)],
                   'ret': None} for _ in range(nch)]
         for _ in range(nw):
@@ -782,7 +786,7 @@ def generate(prop, run_seed, tier='quick', tolerate=frozenset()):
         order = list(range(nch + nw))
         crng.shuffle(order)             # scattered positions in the heap
         scripts = {}
-        if crng.random() < .4:
+        if mega or crng.random() < .4:
             # the cycles are driven from inside a coroutine body (a
             # watchdog re-arming sleepers), one per frame
             for co in coros[:nch]:      # sleepers that never wake by themselves
@@ -798,6 +802,12 @@ def generate(prop, run_seed, tier='quick', tolerate=frozenset()):
             for k in range(crng.randint(33, 60)):
                 c = crng.randrange(nch)
                 scripts[f'co:{drv}:{k}'] = [['kill', c], ['start', c]]
+                if mega:
+                    # every sleeper once per frame: more than a thousand
+                    # stale entries pile up in the wait structure
+                    scripts[f'co:{drv}:{k}'] = [
+                        x for c in range(nch)
+                        for x in (['kill', c], ['start', c])]
                 ops.append(['frame', 1])
             ops.append(['kill', drv])
         else:
